@@ -94,8 +94,7 @@ Definition v_evs (l : list (nat * cb)) : val := VL (map v_ev l).
 
 Definition id_order (l : list (bytes * N)) : list (bytes * N) := l.
 
-Definition run_trav (i : val) : val :=
-  let api := in_api i in
+Definition run_trav_api (api : N) (i : val) : val :=
   if api =? 0 then
     match traverse_v1 id_order (in_root i) (in_trace 0 i) with
     | (out, n, e) => VL [VB out; VN n; v_terr e]
@@ -134,6 +133,25 @@ Definition run_trav (i : val) : val :=
     match write_car ro (blocks_of (t_loads tr)) (t_ok tr) with
     | (out, ok) => VL [VB out; v_okerr ok; v_cids (map fst (first_occ (blocks_of (t_loads tr))))]
     end.
+
+(* api 5 / 6: a history in one process -- SelectiveCar.Write / WriteCar into a destination that fails at
+   its fk-th Write call (opts fields 10, 11), then the fault-free api 3 / api 4 run on the same input *)
+Definition in_fk (i : val) : N := vN (vnth 10 (vnth 2 (vnth 1 i))).
+Definition in_fshort (i : val) : bool := vbool (vnth 11 (vnth 2 (vnth 1 i))).
+Definition run_trav (i : val) : val :=
+  let api := in_api i in
+  if api =? 5 then
+    match sc_history (in_fk i) (in_fshort i) (in_dags i) 0 (in_dags i) with
+    | ((out, ok), _, _) => VL (VL [VB out; v_okerr ok] :: vL (run_trav_api 3 i))
+    end
+  else if api =? 6 then
+    let roots := in_roots i in
+    let ro := match roots with [] => if in_nilroots i then None else Some [] | _ => Some roots end in
+    let tr := in_trace 0 i in
+    match write_car_faulty (in_fk i) (in_fshort i) ro (blocks_of (t_loads tr)) (t_ok tr) with
+    | (out, ok) => VL (VL [VB out; v_okerr ok] :: vL (run_trav_api 4 i))
+    end
+  else run_trav_api api i.
 
 (* ---- layer B on the implementation's observation ------------------------------------------ *)
 Definition tv_is_tag (v : val) (s : string) : bool :=
@@ -252,8 +270,7 @@ Fixpoint cbs_eqb (a b : list cb) : bool :=
 Definition ref_ok (rec ref : trace) : bool :=
   t_ok ref && tv_blocks_eqb (first_occ (blocks_of (t_loads rec))) (first_occ (blocks_of (t_loads ref))).
 
-Definition prop_trav (i obs : val) : val :=
-  let api := in_api i in
+Definition prop_trav_api (api : N) (i obs : val) : val :=
   if api =? 0 then
     let tr := in_trace 0 i in
     if negb (tv_is_tag (vnth 2 obs) "nil") then VT "ok"
@@ -319,3 +336,10 @@ Definition prop_trav (i obs : val) : val :=
                    (ld (enc_header ro 1) ++ enc_sections (first_occ (blocks_of (t_loads tr)))))
     then tv_fail "exact-once" (trace_class tr)
     else VT "ok".
+
+(* the second part of a history must satisfy exactly what a stand-alone run must satisfy *)
+Definition prop_trav (i obs : val) : val :=
+  let api := in_api i in
+  if api =? 5 then prop_trav_api 3 i (VL (tl (vL obs)))
+  else if api =? 6 then prop_trav_api 4 i (VL (tl (vL obs)))
+  else prop_trav_api api i obs.
